@@ -61,9 +61,16 @@ class StubMember:
         if with_recs:
             self.retraining_recs = [None, None]
 
+    concrete_states = False
+
     def _after(self):
         c = cur()
-        self.drift_state = c.state(f"st_{self.key}")
+        st = c.state(f"st_{self.key}")
+        if self.concrete_states:
+            # a real None / "warning" / "drift" (one path each), as real members report: code that tests `is None` cannot
+            # be followed on a proxy
+            st = "drift" if state_is(st, "drift") else ("warning" if state_is(st, "warning") else None)
+        self.drift_state = st
         if hasattr(self, "retraining_recs"):
             self.retraining_recs = [c.int(f"r0_{self.key}"), c.int(f"r1_{self.key}")]
 
@@ -143,7 +150,7 @@ class Frozen:
         self.drift_state = st
 
 
-def body_symbolic(ctx, batch, families, selectors, election, script):
+def body_symbolic(ctx, batch, families, selectors, election, script, concrete=False):
     from menelaus.ensemble import StreamingEnsemble, BatchEnsemble
 
     log = []
@@ -152,6 +159,7 @@ def body_symbolic(ctx, batch, families, selectors, election, script):
         key = f"m{i}"
         cls = {"x": StubXFirst, "y": StubYFirst, "b": StubBatch}[fam[0]]
         members[key] = cls(key, log, with_recs=fam.endswith("r"))
+        members[key].concrete_states = concrete
     sel = {}
     for i, has in enumerate(selectors):
         if has:
@@ -333,7 +341,7 @@ def jobs(tier):
                         out.append(Job(f"sym-{'batch' if batch else 'stream'}-{'.'.join(fam)}-sel{''.join(map(str, selmask))}-{election}-s{si}",
                                        "checks.c12:body_symbolic",
                                        {"batch": batch, "families": list(fam), "selectors": list(selmask),
-                                        "election": election, "script": list(script)},
+                                        "election": election, "script": list(script), "concrete": len(fam) == 1 or (len(fam) == 2 and (election != "recording" or si > 0 or not q))},
                                        expect=("update",), opts={"validate": 1}))
     for election in ("majority",) if q else ("majority", "minimum"):
         for which, n in ((["DDM", "PageHinkley"], 3 if q else 4), (["CUSUM", "ADWIN"], 3 if q else 4),
